@@ -88,7 +88,7 @@ package template
 
 //@ func errorf(k ErrorCode, node parse.Node, line int, f string, args ...interface{}) (r *Error)
 //@   serves C01 C08
-//@   assumed
+//@   option allocates
 //@   ensures !isnil(r)
 
 //@ func tTag(c context, s []byte) (r context, n int)
